@@ -3,6 +3,17 @@
    events), and the characterisation of a whole run by the declarative reading of Spec/Run.v. *)
 From TT Require Import Lib.Base Gen.Handlers Model.Run Spec.Run.
 
+Arguments on_exception : simpl never.
+Arguments report_traceback : simpl never.
+Arguments got_exception : simpl never.
+Arguments add_mismatch : simpl never.
+Arguments gather : simpl never.
+Arguments use_fixture : simpl never.
+Arguments exec_act : simpl never.
+Arguments run_cleanup : simpl never.
+Arguments run_user : simpl never.
+Arguments flatten : simpl never.
+
 (* ------------------------------------------------------------------ *)
 (* steps that touch only details, cells, traceback counter             *)
 (* ------------------------------------------------------------------ *)
@@ -69,11 +80,7 @@ End exc_ind'.
 
 Definition flatten_list (l : list exc) : list exc := flat_map flatten l.
 Lemma flatten_multi x r : flatten (Multi (x :: r)) = flatten x ++ flatten_list r.
-Proof.
-  unfold flatten_list. change (flatten (Multi (x :: r))) with
-    (flatten x ++ (fix go (l : list exc) : list exc := match l with [] => [] | y :: q => flatten y ++ go q end) r).
-  f_equal. induction r as [|y q IH]; simpl; [reflexivity|]. now rewrite IH.
-Qed.
+Proof. reflexivity. Qed.
 
 Lemma flatten_nonempty e : flatten e <> [].
 Proof.
@@ -103,18 +110,22 @@ Proof.
   rewrite calls_app, calls_handlers by reflexivity. rewrite app_nil_r. now rewrite Q7.
 Qed.
 
+Definition got_step (s : st) (x : exc) : st :=
+  let s1 := on_exception x s in set_excs (excs s1 ++ [x]) s1.
+
 Lemma got_exception_gen l : forall s,
-  let s' := fold_left (fun s x => let s1 := on_exception x s in set_excs (excs s1 ++ [x]) s1) l s in
+  let s' := fold_left got_step l s in
   log s' = log s /\ excs s' = excs s ++ l /\ stack s' = stack s /\ attrs s' = attrs s /\ force s' = force s
   /\ onexc s' = onexc s /\ calls (tr s') = calls (tr s).
 Proof.
-  induction l as [|x r IH]; intros s; simpl.
+  induction l as [|x r IH]; intros s; cbn [fold_left].
   - rewrite app_nil_r. repeat split.
-  - specialize (IH (set_excs (excs (on_exception x s) ++ [x]) (on_exception x s))). simpl in IH.
+  - specialize (IH (got_step s x)). cbv zeta in IH.
     destruct IH as (I1 & I2 & I3 & I4 & I5 & I6 & I7).
     destruct (on_exception_spec x s) as (O1 & O2 & O3 & O4 & O5 & O6 & O7).
-    repeat split; try congruence.
-    rewrite I2, O2, <- app_assoc. reflexivity.
+    cbv zeta. rewrite I1, I2, I3, I4, I5, I6, I7. unfold got_step; cbn [log excs stack attrs force onexc tr set_excs].
+    repeat split; try assumption.
+    rewrite O2, <- app_assoc. reflexivity.
 Qed.
 
 Lemma got_exception_spec e s :
@@ -122,3 +133,748 @@ Lemma got_exception_spec e s :
   log s' = log s /\ excs s' = excs s ++ flatten e /\ stack s' = stack s /\ attrs s' = attrs s
   /\ force s' = force s /\ onexc s' = onexc s /\ calls (tr s') = calls (tr s).
 Proof. apply got_exception_gen. Qed.
+
+(* ------------------------------------------------------------------ *)
+(* association lists: undoing a patch                                   *)
+(* ------------------------------------------------------------------ *)
+Lemma aput_aput_same k v w a : aget k a = Some w -> aput k w (aput k v a) = a.
+Proof.
+  induction a as [|[j x] r IH]; simpl; [discriminate|].
+  destruct (Nat.eqb k j) eqn:E; simpl; rewrite E.
+  - intros H; injection H as ->. reflexivity.
+  - intros H. now rewrite IH.
+Qed.
+Lemma adel_aput_fresh k v a : aget k a = None -> adel k (aput k v a) = a.
+Proof.
+  induction a as [|[j x] r IH]; simpl.
+  - now rewrite Nat.eqb_refl.
+  - destruct (Nat.eqb k j) eqn:E; simpl; rewrite E; [discriminate|]. intros H. now rewrite IH.
+Qed.
+
+(* what the pending restore actions would make of vars(scratch), top of the stack first *)
+Definition undo1 (a : list (nat * nat)) (k : cleanup) : list (nat * nat) :=
+  match k with
+  | KRestore x (Some v) => aput x v a
+  | KRestore x None => adel x a
+  | _ => a
+  end.
+Definition undo_all (stk : list cleanup) (a : list (nat * nat)) : list (nat * nat) := fold_left undo1 stk a.
+
+Lemma undo_all_app x y a : undo_all (x ++ y) a = undo_all y (undo_all x a).
+Proof. apply fold_left_app. Qed.
+
+(* ------------------------------------------------------------------ *)
+(* the cleanup stack read declaratively                                 *)
+(* ------------------------------------------------------------------ *)
+Definition ksize (k : cleanup) : nat := match k with KUser _ b => S (acts_size b) | _ => 1 end.
+Definition stack_size (l : list cleanup) : nat := fold_right (fun k n => ksize k + n) 0 l.
+Definition k_entries (k : cleanup) : list entry :=
+  match k with
+  | KUser t b => EUser t b :: pending b
+  | KRestore a _ => [ERestore a]
+  | KGather fx => [EGather fx]
+  | KFxClean fx => [EFx fx]
+  end.
+Definition entries_of (l : list cleanup) : list entry := flat_map k_entries l.
+
+Lemma stack_size_app a b : stack_size (a ++ b) = stack_size a + stack_size b.
+Proof. induction a as [|k r IH]; simpl; [reflexivity|]. rewrite IH. lia. Qed.
+Lemma entries_of_app a b : entries_of (a ++ b) = entries_of a ++ entries_of b.
+Proof. apply flat_map_app. Qed.
+
+Lemma act_entries_cleanup t b : act_entries (ACleanup t b) = EUser t b :: pending b.
+Proof. reflexivity. Qed.
+Lemma act_size_cleanup t b : act_size (ACleanup t b) = S (acts_size b).
+Proof. reflexivity. Qed.
+
+(* ------------------------------------------------------------------ *)
+(* one step of user code on the control part of the state              *)
+(* ------------------------------------------------------------------ *)
+Record step (s s' : st) (lg : list lsh) (fc : bool) (new : list cleanup) : Prop := {
+  st_log : map shape (log s') = map shape (log s) ++ lg;
+  st_excs : excs s' = excs s;
+  st_force : force s' = force s || fc;
+  st_calls : calls (tr s') = calls (tr s);
+  st_stack : stack s' = new ++ stack s;
+  st_attrs : undo_all (stack s') (attrs s') = undo_all (stack s) (attrs s) }.
+
+Lemma step_refl s : step s s [] false [].
+Proof. constructor; simpl; rewrite ?app_nil_r, ?orb_false_r; reflexivity. Qed.
+
+Lemma step_trans a b c lg1 lg2 f1 f2 n1 n2 :
+  step a b lg1 f1 n1 -> step b c lg2 f2 n2 -> step a c (lg1 ++ lg2) (f1 || f2) (n2 ++ n1).
+Proof.
+  intros [A1 A2 A3 A4 A5 A6] [B1 B2 B3 B4 B5 B6]. constructor.
+  - rewrite B1, A1, app_assoc. reflexivity.
+  - congruence.
+  - rewrite B3, A3, orb_assoc. reflexivity.
+  - congruence.
+  - rewrite B5, A5, app_assoc. reflexivity.
+  - congruence.
+Qed.
+
+Lemma step_eq s s' lg fc new lg' fc' new' :
+  step s s' lg fc new -> lg = lg' -> fc = fc' -> new = new' -> step s s' lg' fc' new'.
+Proof. intros H -> -> ->. exact H. Qed.
+Tactic Notation "step_chain" tactic(t) :=
+  eapply step_eq; [t | try (simpl; rewrite ?app_nil_r, ?orb_false_r; reflexivity) ..].
+
+Lemma quiet_step s s' : quiet s s' -> step s s' [] false [].
+Proof.
+  intros [Q1 Q2 Q3 Q4 Q5 Q6 Q7]. constructor; simpl; rewrite ?app_nil_r, ?orb_false_r; congruence.
+Qed.
+
+Lemma step_log s l : step s (add_log l s) (map shape l) false [].
+Proof. constructor; simpl; rewrite ?orb_false_r, ?map_app; reflexivity. Qed.
+
+(* fixtures *)
+Lemma run_fx_cleanups_gen (l : list (nat * option exc)) : forall (s : st) (errs : list exc),
+  let r := fold_left (fun (se : st * list exc) (c : nat * option exc) => (add_log [LTok (fst c)] (fst se),
+                                   match snd c with Some e => snd se ++ [e] | None => snd se end)) l (s, errs) in
+  step s (fst r) (map (fun c => STok (fst c)) l) false []
+  /\ snd r = errs ++ flat_map (fun c : nat * option exc => match snd c with Some e => [e] | None => [] end) l.
+Proof.
+  induction l as [|c q IH]; intros s errs; cbn [fold_left].
+  - cbv zeta. simpl. rewrite app_nil_r. split; [apply step_refl | reflexivity].
+  - cbv zeta. cbn [fst snd].
+    specialize (IH (add_log [LTok (fst c)] s) (match snd c with Some e => errs ++ [e] | None => errs end)).
+    cbv zeta in IH. destruct IH as [I1 I2]. split.
+    + step_chain (eapply step_trans; [apply (step_log s [LTok (fst c)]) | exact I1]).
+    + rewrite I2. simpl. destruct (snd c); [rewrite <- app_assoc|]; reflexivity.
+Qed.
+
+Lemma run_fx_cleanups_spec cs s :
+  step s (fst (run_fx_cleanups cs s)) (fx_cleanup_log cs) false []
+  /\ snd (run_fx_cleanups cs s) = fx_errs cs.
+Proof.
+  unfold run_fx_cleanups, fx_cleanup_log, fx_errs. destruct (run_fx_cleanups_gen (rev cs) s []) as [A B].
+  split; [exact A | exact B].
+Qed.
+
+Lemma fx_cleanup_spec cs s :
+  step s (fst (fx_cleanup cs s)) (fx_cleanup_log cs) false []
+  /\ snd (fx_cleanup cs s) = fx_cleanup_raise cs.
+Proof.
+  unfold fx_cleanup, fx_cleanup_raise. destruct (run_fx_cleanups_spec cs s) as [A B].
+  destruct (run_fx_cleanups cs s) as [s1 errs]. simpl in *. subst errs. split; [exact A|].
+  destruct (fx_errs cs) as [|e [|e' r]]; reflexivity.
+Qed.
+
+Lemma step_push k s :
+  (match k return Prop with KRestore _ _ => False | _ => True end) ->
+  step s (push k s) [] false [k].
+Proof.
+  intros H. constructor; simpl; rewrite ?app_nil_r, ?orb_false_r; try reflexivity.
+  destruct k; try reflexivity. contradiction.
+Qed.
+
+Lemma use_fixture_spec fx s :
+  snd (use_fixture fx s) = fixture_raise fx
+  /\ exists new, step s (fst (use_fixture fx s)) (act_log (AFixture fx)) false new
+                 /\ entries_of new = act_entries (AFixture fx)
+                 /\ stack_size new <= 2.
+Proof.
+  unfold use_fixture, fixture_raise. cbn [act_log act_entries]. unfold fixture_raise.
+  destruct (fx_fail fx) as [e|].
+  - destruct (fx_old fx).
+    + cbn [fst snd]. split; [reflexivity|]. exists []. split; [|split; [reflexivity | simpl; lia]].
+      step_chain (eapply step_trans; [apply step_log | apply quiet_step, quiet_gather]).
+    + destruct (run_fx_cleanups_spec (fx_cleanups fx) (add_log [LTok (fx_tok fx)] s)) as [A B].
+      destruct (run_fx_cleanups _ _) as [s2 errs]. cbn [fst snd] in *. subst errs.
+      split; [reflexivity|]. exists []. split; [|split; [reflexivity | simpl; lia]].
+      step_chain (eapply step_trans; [apply step_log|]; eapply step_trans; [exact A | apply quiet_step, quiet_gather]).
+  - cbn [fst snd]. split; [reflexivity|]. exists [KGather fx; KFxClean fx].
+    split; [|split; [reflexivity | simpl; lia]].
+    step_chain (eapply step_trans; [apply step_log|]; eapply step_trans; apply step_push; exact I).
+Qed.
+
+Lemma exec_act_spec a s :
+  snd (exec_act a s) = act_raise a
+  /\ exists new, step s (fst (exec_act a s)) (act_log a) (sets_force a) new
+                 /\ entries_of new = match act_raise a with Some _ => [] | None => act_entries a end
+                 /\ stack_size new <= act_size a.
+Proof.
+  destruct a as [n loc | loc v | mm | mm | t body | a v | fx | h | | r p | e]; unfold exec_act.
+  - split; [reflexivity|]. exists []. split; [apply quiet_step, quiet_add_detail | split; [reflexivity | simpl; lia]].
+  - split; [reflexivity|]. exists []. split; [|split; [reflexivity | simpl; lia]].
+    constructor; simpl; rewrite ?app_nil_r, ?orb_false_r; reflexivity.
+  - split; [reflexivity|]. exists []. split; [|split; [reflexivity | simpl; lia]].
+    pose proof (quiet_add_mismatch mm s) as [Q1 Q2 Q3 Q4 Q5 Q6 Q7].
+    constructor; simpl; rewrite ?app_nil_r, ?orb_true_r; congruence.
+  - split; [reflexivity|]. exists []. split; [apply quiet_step, quiet_add_mismatch | split; [reflexivity | simpl; lia]].
+  - split; [reflexivity|]. exists [KUser t body]. split; [apply step_push; exact I|].
+    split; [simpl; now rewrite app_nil_r | cbn [stack_size fold_right ksize]; rewrite act_size_cleanup; lia].
+  - split; [reflexivity|]. exists [KRestore a (aget a (attrs s))]. split; [|split; [reflexivity | simpl; lia]].
+    constructor; simpl; rewrite ?orb_false_r, ?map_app; try reflexivity.
+    f_equal. destruct (aget a (attrs s)) eqn:G; [now apply aput_aput_same | now apply adel_aput_fresh].
+  - destruct (use_fixture_spec fx s) as [A (new & B & C & D)]. split; [exact A|]. exists new.
+    split; [exact B|]. split; [|exact D]. cbn [act_raise]. rewrite C. cbn [act_entries]. now destruct (fixture_raise fx).
+  - split; [reflexivity|]. exists []. split; [|split; [reflexivity | simpl; lia]].
+    constructor; simpl; rewrite ?app_nil_r, ?orb_false_r; reflexivity.
+  - split; [reflexivity|]. exists []. split; [|split; [reflexivity | simpl; lia]].
+    constructor; simpl; rewrite ?app_nil_r, ?orb_true_r; reflexivity.
+  - destruct p as [e|]; cbn [act_raise].
+    + destruct (isinstance e CFail); (split; [reflexivity|]); exists [];
+        (split; [|split; [reflexivity | simpl; lia]]).
+      * apply quiet_step. eapply quiet_trans; [apply quiet_add_detail | apply quiet_report_traceback].
+      * apply quiet_step, quiet_add_detail.
+    + split; [reflexivity|]. exists []. split; [apply quiet_step, quiet_add_detail | split; [reflexivity | simpl; lia]].
+  - split; [reflexivity|]. exists []. split; [apply step_refl | split; [reflexivity | simpl; lia]].
+Qed.
+
+Lemma exec_acts_spec l : forall s,
+  snd (exec_acts l s) = acts_raise l
+  /\ exists new, step s (fst (exec_acts l s)) (acts_log l) (existsb sets_force (executed l)) new
+                 /\ entries_of new = pending l
+                 /\ stack_size new <= acts_size l.
+Proof.
+  induction l as [|a r IH]; intros s.
+  - simpl. split; [reflexivity|]. exists []. split; [apply step_refl | split; [reflexivity | simpl; lia]].
+  - cbn [exec_acts acts_raise executed pending]. unfold acts_log. cbn [executed flat_map existsb].
+    destruct (exec_act_spec a s) as [A (new & B & C & D)].
+    destruct (exec_act a s) as [s1 ra]. cbn [fst snd] in *. subst ra.
+    destruct (act_raise a) as [e|].
+    + cbn [fst snd]. split; [reflexivity|]. exists new. split; [|split; [exact C | cbn [acts_size fold_right]; lia]].
+      cbn [flat_map existsb]. rewrite app_nil_r, orb_false_r. exact B.
+    + destruct (IH s1) as [A' (new' & B' & C' & D')]. split; [exact A'|]. exists (new' ++ new).
+      split; [eapply step_trans; [exact B | exact B']|].
+      split; [rewrite entries_of_app, C, C'; reflexivity|].
+      rewrite stack_size_app. cbn [acts_size fold_right]. fold (acts_size r). lia.
+Qed.
+
+(* ------------------------------------------------------------------ *)
+(* the cleanup machine                                                  *)
+(* ------------------------------------------------------------------ *)
+Definition entries_log (l : list entry) : list lsh := flat_map entry_log l.
+Definition entries_excs (l : list entry) : list exc := flat_map (fun e => caught (entry_raise e)) l.
+Definition entries_force (l : list entry) : bool := existsb entry_forces l.
+
+Lemma entries_excs_app a b : entries_excs (a ++ b) = entries_excs a ++ entries_excs b.
+Proof. apply flat_map_app. Qed.
+Lemma entries_log_app a b : entries_log (a ++ b) = entries_log a ++ entries_log b.
+Proof. apply flat_map_app. Qed.
+Lemma entries_force_app a b : entries_force (a ++ b) = entries_force a || entries_force b.
+Proof. apply existsb_app. Qed.
+
+(* what a piece of the run did to the control part of the state *)
+Record ran (s s' : st) (lg : list lsh) (ex : list exc) (fc : bool) : Prop := {
+  r_log : map shape (log s') = map shape (log s) ++ lg;
+  r_excs : excs s' = excs s ++ ex;
+  r_force : force s' = force s || fc;
+  r_calls : calls (tr s') = calls (tr s) }.
+
+Lemma ran_refl s : ran s s [] [] false.
+Proof. constructor; rewrite ?app_nil_r, ?orb_false_r; reflexivity. Qed.
+Lemma ran_trans a b c l1 l2 e1 e2 f1 f2 :
+  ran a b l1 e1 f1 -> ran b c l2 e2 f2 -> ran a c (l1 ++ l2) (e1 ++ e2) (f1 || f2).
+Proof.
+  intros [A1 A2 A3 A4] [B1 B2 B3 B4]. constructor.
+  - rewrite B1, A1, app_assoc. reflexivity.
+  - rewrite B2, A2, app_assoc. reflexivity.
+  - rewrite B3, A3, orb_assoc. reflexivity.
+  - congruence.
+Qed.
+Lemma ran_eq s s' lg ex fc lg' ex' fc' :
+  ran s s' lg ex fc -> lg = lg' -> ex = ex' -> fc = fc' -> ran s s' lg' ex' fc'.
+Proof. intros H -> -> ->. exact H. Qed.
+
+Definition raisedb (r : option exc) : bool := match r with Some _ => true | None => false end.
+
+(* _run_user around a step *)
+Lemma run_user_spec s s1 oe lg fc new :
+  step s s1 lg fc new ->
+  let r := run_user (s1, oe) in
+  snd r = raisedb oe
+  /\ ran s (fst r) lg (caught oe) fc
+  /\ stack (fst r) = new ++ stack s
+  /\ undo_all (stack (fst r)) (attrs (fst r)) = undo_all (stack s) (attrs s).
+Proof.
+  intros [S1 S2 S3 S4 S5 S6]. unfold run_user. destruct oe as [e|]; cbn [fst snd caught raisedb].
+  - destruct (got_exception_spec e s1) as (G1 & G2 & G3 & G4 & G5 & G6 & G7).
+    split; [reflexivity|]. split; [constructor; congruence|]. split; congruence.
+  - split; [reflexivity|]. split; [constructor; rewrite ?app_nil_r; congruence|]. split; congruence.
+Qed.
+
+Definition entry_hd (k : cleanup) : entry :=
+  match k with
+  | KUser t b => EUser t b | KRestore a _ => ERestore a | KGather fx => EGather fx | KFxClean fx => EFx fx
+  end.
+Definition k_rest (k : cleanup) : list entry := match k with KUser _ b => pending b | _ => [] end.
+Lemma k_entries_split k : k_entries k = entry_hd k :: k_rest k.
+Proof. destruct k; reflexivity. Qed.
+
+(* an entry of _cleanups being called, the entry already popped *)
+Lemma run_cleanup_spec k s :
+  let r := run_cleanup k s in
+  snd r = entry_raise (entry_hd k)
+  /\ map shape (log (fst r)) = map shape (log s) ++ entry_log (entry_hd k)
+  /\ excs (fst r) = excs s
+  /\ force (fst r) = force s || entry_forces (entry_hd k)
+  /\ calls (tr (fst r)) = calls (tr s)
+  /\ exists new, stack (fst r) = new ++ stack s /\ entries_of new = k_rest k /\ stack_size new < ksize k
+                 /\ undo_all (stack (fst r)) (attrs (fst r)) = undo_all (stack s) (undo1 (attrs s) k).
+Proof.
+  destruct k as [t b | a old | fx | fx]; unfold run_cleanup; cbv zeta.
+  - destruct (exec_acts_spec b (add_log [LTok t] s)) as [A (new & B & C & D)].
+    pose proof (step_trans _ _ _ _ _ _ _ _ _ (step_log s [LTok t]) B) as [S1 S2 S3 S4 S5 S6].
+    cbn [entry_hd entry_raise entry_log entry_forces k_rest ksize undo1].
+    split; [exact A|]. split; [exact S1|]. split; [exact S2|]. split; [exact S3|]. split; [exact S4|].
+    exists new. rewrite app_nil_r in S5. split; [exact S5|]. split; [exact C|]. split; [lia | exact S6].
+  - cbn [entry_hd entry_raise entry_log entry_forces k_rest ksize].
+    destruct old as [v|]; cbn [fst snd]; simpl; rewrite ?orb_false_r, ?map_app;
+      (repeat (split; [reflexivity|])); exists []; repeat split; simpl; lia.
+  - destruct (quiet_gather (fx_source fx) s) as [Q1 Q2 Q3 Q4 Q5 Q6 Q7].
+    cbn [entry_hd entry_raise entry_log entry_forces k_rest ksize undo1 fst snd].
+    rewrite app_nil_r, orb_false_r. split; [reflexivity|]. repeat (split; [congruence|]).
+    exists []. repeat split; simpl; try lia; congruence.
+  - destruct (fx_cleanup_spec (fx_cleanups fx) s) as [[S1 S2 S3 S4 S5 S6] B].
+    cbn [entry_hd entry_raise entry_log entry_forces k_rest ksize undo1].
+    split; [exact B|]. split; [exact S1|]. split; [exact S2|]. split; [exact S3|]. split; [exact S4|].
+    exists []. repeat split; simpl; try lia; assumption.
+Qed.
+
+Lemma stack_size_pos k r : 1 <= stack_size (k :: r).
+Proof. simpl. destruct k; simpl; lia. Qed.
+
+Theorem run_cleanups_spec fuel : forall s,
+  stack_size (stack s) <= fuel ->
+  exists s' failing,
+    run_cleanups fuel s = (s', failing, false)
+    /\ ran s s' (entries_log (entries_of (stack s))) (entries_excs (entries_of (stack s)))
+                (entries_force (entries_of (stack s)))
+    /\ failing = negb (match entries_excs (entries_of (stack s)) with [] => true | _ => false end)
+    /\ stack s' = []
+    /\ attrs s' = undo_all (stack s) (attrs s).
+Proof.
+  induction fuel as [|f IH]; intros s Hsz.
+  - destruct (stack s) as [|k rest] eqn:Est.
+    + exists s, false. simpl. rewrite Est. repeat split; try reflexivity; apply ran_refl.
+    + pose proof (stack_size_pos k rest). lia.
+  - destruct (stack s) as [|k rest] eqn:Est.
+    + exists s, false. simpl. rewrite Est. repeat split; try reflexivity; apply ran_refl.
+    + cbn [run_cleanups]. rewrite Est.
+      pose proof (run_cleanup_spec k (set_stack rest s)) as R. cbv zeta in R.
+      destruct (run_cleanup k (set_stack rest s)) as [s1 oe]. cbn [fst snd] in R.
+      destruct R as (R1 & R2 & R3 & R4 & R5 & new & R6 & R7 & R8 & R9).
+      cbn [log excs force tr stack attrs set_stack] in *.
+      (* run_user by hand, since a restore entry changes vars(scratch) *)
+      assert (U : exists s2, run_user (s1, oe) = (s2, raisedb oe)
+                  /\ ran (set_stack rest s) s2 (entry_log (entry_hd k)) (caught oe) (entry_forces (entry_hd k))
+                  /\ stack s2 = new ++ rest
+                  /\ undo_all (stack s2) (attrs s2) = undo_all rest (undo1 (attrs s) k)).
+      { unfold run_user. destruct oe as [e|]; cbn [raisedb caught].
+        - destruct (got_exception_spec e s1) as (G1 & G2 & G3 & G4 & G5 & G6 & G7).
+          eexists; split; [reflexivity|]. split; [constructor; cbn [log excs force tr set_stack]; congruence|].
+          split; congruence.
+        - eexists; split; [reflexivity|]. split; [constructor; cbn [log excs force tr set_stack]; rewrite ?app_nil_r; congruence|].
+          split; congruence. }
+      destruct U as (s2 & U1 & U2 & U3 & U4). rewrite U1.
+      assert (Hsz2 : stack_size (stack s2) <= f).
+      { rewrite U3, stack_size_app. simpl in Hsz. lia. }
+      destruct (IH s2 Hsz2) as (s' & failing & I1 & I2 & I3 & I4 & I5). rewrite I1.
+      exists s', (raisedb oe || failing). split; [reflexivity|].
+      assert (EE : entries_of (k :: rest) = entry_hd k :: entries_of (stack s2)).
+      { unfold entries_of at 1. cbn [flat_map]. rewrite k_entries_split. rewrite U3, entries_of_app, R7. reflexivity. }
+      rewrite EE. split.
+      { destruct U2 as [A1 A2 A3 A4]. destruct I2 as [B1 B2 B3 B4].
+        cbn [log excs force tr set_stack] in *. constructor.
+        - rewrite B1, A1, <- app_assoc. reflexivity.
+        - rewrite B2, A2, <- app_assoc. unfold entries_excs at 2. cbn [flat_map]. rewrite <- R1. reflexivity.
+        - rewrite B3, A3, <- orb_assoc. reflexivity.
+        - congruence. }
+      split.
+      { rewrite I3. unfold entries_excs at 2. cbn [flat_map]. rewrite <- R1.
+        destruct oe as [e|]; cbn [raisedb caught].
+        - pose proof (flatten_nonempty e). destruct (flatten e); [contradiction | reflexivity].
+        - reflexivity. }
+      split; [exact I4|]. rewrite I5, U4. reflexivity.
+Qed.
+
+(* ------------------------------------------------------------------ *)
+(* stages                                                               *)
+(* ------------------------------------------------------------------ *)
+Lemma run_method_spec m up s :
+  snd (run_method m up s) = match acts_raise (snd m) with
+                            | Some e => Some e
+                            | None => if up then None else Some (Exc CValueError None)
+                            end
+  /\ exists new, step s (fst (run_method m up s)) (stage_log m) (existsb sets_force (executed (snd m))) new
+                 /\ entries_of new = pending (snd m) /\ stack_size new <= acts_size (snd m).
+Proof.
+  unfold run_method. destruct (exec_acts_spec (snd m) (add_log [LTok (fst m)] s)) as [A (new & B & C & D)].
+  pose proof (step_trans _ _ _ _ _ _ _ _ _ (step_log s [LTok (fst m)]) B) as S. rewrite app_nil_r in S.
+  destruct (exec_acts (snd m) (add_log [LTok (fst m)] s)) as [s1 oe]. cbn [fst snd] in *. subst oe.
+  destruct (acts_raise (snd m)); cbn [fst snd]; (split; [reflexivity|]); exists new;
+    (split; [exact S | split; assumption]).
+Qed.
+
+Lemma run_test_method_spec p s :
+  snd (run_test_method p s) = body_raise p
+  /\ exists new, step s (fst (run_test_method p s)) (stage_log (p_body p))
+                      (existsb sets_force (executed (snd (p_body p)))) new
+                 /\ entries_of new = pending (snd (p_body p)) /\ stack_size new <= acts_size (snd (p_body p)).
+Proof.
+  unfold run_test_method, body_raise.
+  destruct (exec_acts_spec (snd (p_body p)) (add_log [LTok (fst (p_body p))] s)) as [A (new & B & C & D)].
+  pose proof (step_trans _ _ _ _ _ _ _ _ _ (step_log s [LTok (fst (p_body p))]) B) as S. rewrite app_nil_r in S.
+  destruct (exec_acts (snd (p_body p)) (add_log [LTok (fst (p_body p))] s)) as [s1 oe]. cbn [fst snd] in *. subst oe.
+  destruct (p_xfail p).
+  - destruct (acts_raise (snd (p_body p))) as [e|].
+    + destruct (isinstance e CException); cbn [fst snd]; (split; [reflexivity|]); exists new;
+        (split; [|split; assumption]); [|exact S].
+      step_chain (eapply step_trans; [exact S | apply quiet_step, quiet_report_traceback]).
+    + cbn [fst snd]. split; [reflexivity|]. exists new. split; [exact S | split; assumption].
+  - split; [reflexivity|]. exists new. split; [exact S | split; assumption].
+Qed.
+
+Lemma caught_nil r : caught r = [] <-> raisedb r = false.
+Proof.
+  destruct r as [e|]; simpl; split; intro H; try reflexivity; try discriminate.
+  exfalso; exact (flatten_nonempty e H).
+Qed.
+Definition is_nil {A} (l : list A) : bool := match l with [] => true | _ => false end.
+Lemma is_nil_app {A} (a b : list A) : is_nil (a ++ b) = is_nil a && is_nil b.
+Proof. destruct a; reflexivity. Qed.
+Lemma raisedb_caught r : raisedb r = negb (is_nil (caught r)).
+Proof.
+  destruct r as [e|]; simpl; [|reflexivity].
+  pose proof (flatten_nonempty e). destruct (flatten e); [contradiction | reflexivity].
+Qed.
+
+
+(* the exceptions a run of [p] collects when force_failure is [f0] at its start *)
+Definition collected (p : prog) (f0 : bool) : list exc :=
+  raised_by_user p ++ (if setup_returns p && (f0 || forced p) then [Exc CFail None] else []).
+
+(* _run_core on a program that is not skip-decorated *)
+Theorem run_core_spec p fuel s :
+  p_skip p = None -> stack s = [] -> prog_size p <= fuel ->
+  exists s',
+    run_core p fuel s = (s', false)
+    /\ map shape (log s') = map shape (log s) ++ expected_log p
+    /\ excs s' = excs s ++ collected p (force s)
+    /\ force s' = force s || forced p
+    /\ stack s' = [] /\ attrs s' = attrs s
+    /\ (if is_nil (collected p (force s))
+        then exists d, calls (tr s') = calls (tr s) ++ [TOut OSuccess d]
+        else calls (tr s') = calls (tr s)).
+Proof.
+  intros Hskip Hst Hfuel. unfold run_core, collected, expected_log, raised_by_user, forced, cleanup_entries, skipped.
+  rewrite Hskip. unfold prog_size in Hfuel.
+  (* setUp *)
+  destruct (run_method_spec (p_setup p) (p_up_setup p) s) as [A1 (n1 & B1 & C1 & D1)].
+  fold (setup_raise p) in A1.
+  destruct (run_method (p_setup p) (p_up_setup p) s) as [s1' oe1]. cbn [fst snd] in A1, B1. subst oe1.
+  pose proof (run_user_spec _ _ (setup_raise p) _ _ _ B1) as U1. cbv zeta in U1.
+  destruct (run_user (s1', setup_raise p)) as [s1 f1]. cbn [fst snd] in U1.
+  destruct U1 as (F1 & R1 & K1 & T1). subst f1. rewrite Hst, app_nil_r in K1. rewrite Hst in T1. cbn [undo_all fold_left] in T1.
+  unfold setup_returns. destruct (setup_raise p) as [e1|] eqn:Es; cbn [raisedb].
+  - (* setUp failed: only the cleanups *)
+    assert (Hsz : stack_size (stack s1) <= fuel) by (rewrite K1; lia).
+    destruct (run_cleanups_spec fuel s1 Hsz) as (s2 & failing & I1 & I2 & I3 & I4 & I5). rewrite I1.
+    exists s2. split; [reflexivity|]. rewrite K1, C1 in *.
+    destruct R1 as [A1 A2 A3 A4]. destruct I2 as [B1' B2 B3 B4].
+    cbn [andb]. rewrite !app_nil_r.
+    split; [rewrite B1', A1, <- app_assoc; reflexivity|].
+    split; [rewrite B2, A2, <- app_assoc; reflexivity|].
+    split; [rewrite B3, A3; cbn [andb]; rewrite orb_false_r, <- orb_assoc; reflexivity|].
+    split; [exact I4|]. split; [rewrite I5; exact T1|].
+    rewrite is_nil_app. cbn [caught]. pose proof (flatten_nonempty e1). destruct (flatten e1); [contradiction|].
+    cbn [is_nil andb]. congruence.
+  - (* setUp returned *)
+    destruct (run_test_method_spec p s1) as [A2 (n2 & B2 & C2 & D2)].
+    destruct (run_test_method p s1) as [s2' oe2]. cbn [fst snd] in A2, B2. subst oe2.
+    pose proof (run_user_spec _ _ (body_raise p) _ _ _ B2) as U2. cbv zeta in U2.
+    destruct (run_user (s2', body_raise p)) as [s2 f2]. cbn [fst snd] in U2.
+    destruct U2 as (F2 & R2 & K2 & T2). subst f2.
+    destruct (run_method_spec (p_teardown p) (p_up_teardown p) s2) as [A3 (n3 & B3 & C3 & D3)].
+    fold (teardown_raise p) in A3.
+    destruct (run_method (p_teardown p) (p_up_teardown p) s2) as [s3' oe3]. cbn [fst snd] in A3, B3. subst oe3.
+    pose proof (run_user_spec _ _ (teardown_raise p) _ _ _ B3) as U3. cbv zeta in U3.
+    destruct (run_user (s3', teardown_raise p)) as [s3 f3]. cbn [fst snd] in U3.
+    destruct U3 as (F3 & R3 & K3 & T3). subst f3.
+    assert (K3' : stack s3 = n3 ++ n2 ++ n1) by (rewrite K3, K2, K1; reflexivity).
+    assert (Hsz : stack_size (stack s3) <= fuel) by (rewrite K3', !stack_size_app; lia).
+    destruct (run_cleanups_spec fuel s3 Hsz) as (s4 & failing & I1 & I2 & I3 & I4 & I5). rewrite I1.
+    rewrite K3', !entries_of_app, C1, C2, C3 in I2, I3.
+    set (E := pending (snd (p_teardown p)) ++ pending (snd (p_body p)) ++ pending (snd (p_setup p))) in *.
+    destruct R1 as [a1 a2 a3 a4]. destruct R2 as [b1 b2 b3 b4]. destruct R3 as [c1 c2 c3 c4].
+    destruct I2 as [d1 d2 d3 d4]. cbn [caught] in a2. rewrite app_nil_r in a2.
+    assert (F4 : force s4 = force s || (existsb sets_force (executed (snd (p_setup p)))
+                   || (existsb sets_force (executed (snd (p_body p))) || existsb sets_force (executed (snd (p_teardown p))))
+                   || existsb entry_forces E)).
+    { rewrite d3, c3, b3, a3. unfold entries_force. rewrite <- !orb_assoc. reflexivity. }
+    assert (X4 : excs s4 = excs s ++ caught (body_raise p) ++ caught (teardown_raise p) ++ entries_excs E).
+    { rewrite d2, c2, b2, a2, <- !app_assoc. reflexivity. }
+    assert (L4 : map shape (log s4) = map shape (log s) ++ stage_log (p_setup p) ++
+                   (stage_log (p_body p) ++ stage_log (p_teardown p)) ++ entries_log E).
+    { rewrite d1, c1, b1, a1, <- !app_assoc. reflexivity. }
+    assert (A4 : attrs s4 = attrs s) by (rewrite I5, T3, T2; exact T1).
+    assert (C4 : calls (tr s4) = calls (tr s)) by congruence.
+    cbn [andb caught app]. fold (entries_excs E). fold (entries_log E).
+    set (forcedp := existsb sets_force (executed (snd (p_setup p)))
+                    || (existsb sets_force (executed (snd (p_body p)))
+                        || existsb sets_force (executed (snd (p_teardown p))))
+                    || existsb entry_forces E) in *.
+    change (failing = negb (is_nil (entries_excs E))) in I3.
+    rewrite F4. subst failing. rewrite !raisedb_caught.
+    destruct (force s || forcedp) eqn:Ef.
+    + (* the forced failure *)
+      destruct (got_exception_spec (Exc CFail None) s4) as (G1 & G2 & G3 & G4 & G5 & G6 & G7).
+      rewrite !orb_true_r. eexists. split; [reflexivity|].
+      split; [rewrite G1, L4; reflexivity|].
+      split; [rewrite G2, X4, <- !app_assoc; reflexivity|].
+      split; [rewrite G5; exact F4|].
+      split; [congruence|]. split; [congruence|].
+      rewrite !is_nil_app. cbn [is_nil]. rewrite !andb_false_r. congruence.
+    + rewrite orb_false_r.
+      destruct (is_nil (caught (body_raise p))) eqn:N2, (is_nil (caught (teardown_raise p))) eqn:N3,
+               (is_nil (entries_excs E)) eqn:N4; cbn [negb orb];
+        (eexists; split; [reflexivity|]);
+        (split; [first [exact L4 | cbn [log add_tr set_tr]; exact L4]|]);
+        (split; [cbn [excs add_tr set_tr]; rewrite X4, app_nil_r, <- !app_assoc; reflexivity|]);
+        (split; [cbn [force add_tr set_tr]; exact F4|]);
+        (split; [cbn [stack add_tr set_tr]; exact I4|]);
+        (split; [cbn [attrs add_tr set_tr]; exact A4|]);
+        rewrite app_nil_r, !is_nil_app, N2, N3, N4; cbn [andb];
+        try exact C4.
+      eexists. cbn [tr add_tr set_tr]. rewrite calls_app, C4. reflexivity.
+Qed.
+
+(* ------------------------------------------------------------------ *)
+(* the whole run                                                        *)
+(* ------------------------------------------------------------------ *)
+(* the exceptions collected by a run that starts with force_failure = f0 *)
+Definition collected_run (p : prog) (f0 : bool) : list exc := if skipped p then [] else collected p f0.
+
+(* which outcome is reported for the collected exceptions, and what propagates *)
+Definition decide (hs : list handler) (X : list exc) : option outcome * option exc :=
+  match choose hs X with
+  | None => (Some OSuccess, None)
+  | Some e => match lookup hs e with
+              | Some h => (h_out h, None)
+              | None => (last_resort, Some e)
+              end
+  end.
+Definition verdict (p : prog) (f0 : bool) : option outcome * option exc :=
+  if skipped p then (Some OSkip, None) else decide (handlers p) (collected p f0).
+
+Lemma choose_nil hs : choose hs [] = None.
+Proof. reflexivity. Qed.
+Lemma choose_some hs X : X <> [] -> exists e, choose hs X = Some e.
+Proof.
+  intros H. unfold choose. destruct (rev X) as [|l r] eqn:E.
+  - apply (f_equal (@rev exc)) in E. rewrite rev_involutive in E. simpl in E. contradiction.
+  - destruct (find _ _); eexists; reflexivity.
+Qed.
+
+Theorem run_from_spec p s :
+  exists s' d,
+    run_from p s = (s', snd (verdict p (force s)), false)
+    /\ map shape (log s') = map shape (log s) ++ expected_log p
+    /\ excs s' = collected_run p (force s)
+    /\ force s' = force s || (negb (skipped p) && forced p)
+    /\ stack s' = [] /\ attrs s' = attrs s
+    /\ calls (tr s') = calls (tr s) ++ TStart :: match fst (verdict p (force s)) with
+                                                 | Some o => [TOut o d]
+                                                 | None => []
+                                                 end ++ [TStop].
+Proof.
+  unfold run_from, run_prepared, verdict, collected_run, expected_log, skipped.
+  destruct (p_skip p) as [r|] eqn:Hskip; fold (skipped p); fold (expected_log p).
+  - (* skip-decorated: nothing runs *)
+    unfold run_core. rewrite Hskip. cbn [excs add_tr set_tr set_excs tr reset set_tbgen set_dets set_stack choose rev].
+    eexists. eexists. split; [reflexivity|].
+    cbn [log excs force stack attrs tr add_tr set_tr set_excs reset set_tbgen set_dets set_stack fst snd negb andb].
+    rewrite app_nil_r, orb_false_r, !calls_app. cbn [calls filter is_call app]. rewrite <- !app_assoc.
+    repeat split; reflexivity.
+  - set (s0 := set_excs [] (add_tr [TStart] (reset s))).
+    assert (H0 : stack s0 = []) by reflexivity.
+    destruct (run_core_spec p (S (prog_size p)) s0 Hskip H0 (Nat.le_succ_diag_r _))
+      as (s1 & R & L1 & X1 & F1 & K1 & A1 & C1).
+    unfold expected_log, skipped in L1. rewrite Hskip in L1.
+    rewrite R. subst s0. cbn [log excs force stack attrs tr add_tr set_tr set_excs reset set_tbgen set_dets set_stack app] in *.
+    cbn [negb andb]. rewrite X1. set (X := collected p (force s)) in *.
+    assert (C0 : calls (tr s ++ [TStart]) = calls (tr s) ++ [TStart]) by (rewrite calls_app; reflexivity).
+    rewrite C0 in C1. unfold decide.
+    destruct X as [|x0 xr] eqn:EX.
+    + (* nothing was caught: the success already reported *)
+      cbn [is_nil] in C1. destruct C1 as [d C1]. rewrite choose_nil.
+      exists (add_tr [TStop] s1), d. split; [reflexivity|].
+      cbn [log excs force stack attrs tr add_tr set_tr fst snd].
+      repeat (split; [assumption|]). rewrite calls_app, C1, <- !app_assoc. reflexivity.
+    + cbn [is_nil] in C1.
+      destruct (choose_some (handlers p) (x0 :: xr)) as [e He]; [discriminate|]. rewrite He.
+      destruct (lookup (handlers p) e) as [h|] eqn:Hl; cbn [fst snd].
+      * (* a handler claims it *)
+        unfold call_handler.
+        set (s1' := if h_reason h then add_detail n_reason (CReason (arg_of e)) s1 else s1).
+        assert (Q : quiet s1 s1') by (subst s1'; destruct (h_reason h); [apply quiet_add_detail | apply quiet_refl]).
+        destruct Q as [Q1 Q2 Q3 Q4 Q5 Q6 Q7].
+        destruct (h_out h) as [o|].
+        -- eexists. exists (current_details s1'). split; [reflexivity|].
+           cbn [log excs force stack attrs tr add_tr set_tr]. rewrite Q1, Q2, Q3, Q4, Q5, Q7.
+           repeat (split; [assumption|]). rewrite !calls_app, C1, <- !app_assoc. reflexivity.
+        -- eexists. exists []. split; [reflexivity|].
+           cbn [log excs force stack attrs tr add_tr set_tr]. rewrite Q1, Q2, Q3, Q4, Q5, Q7.
+           repeat (split; [assumption|]). rewrite !calls_app, C1, <- !app_assoc. reflexivity.
+      * (* no handler claims it: last resort, then it propagates *)
+        destruct last_resort as [o|].
+        -- eexists. exists (current_details s1). split; [reflexivity|].
+           cbn [log excs force stack attrs tr add_tr set_tr].
+           repeat (split; [assumption|]). rewrite !calls_app, C1, <- !app_assoc. reflexivity.
+        -- eexists. exists []. split; [reflexivity|].
+           cbn [log excs force stack attrs tr add_tr set_tr].
+           repeat (split; [assumption|]). rewrite !calls_app, C1, <- !app_assoc. reflexivity.
+Qed.
+
+(* ------------------------------------------------------------------ *)
+(* classes, the handler table, the choice of the reported exception   *)
+(* ------------------------------------------------------------------ *)
+(* ---------- decidable equalities ---------- *)
+Lemma cls_eqb_spec a : forall b, cls_eqb a b = true <-> a = b.
+Proof.
+  induction a as [| | | | | | | | | | | | |p IH k]; intros b; destruct b; simpl; split; intro H;
+    try reflexivity; try discriminate.
+  - apply andb_true_iff in H as [H1 H2]. apply IH in H1. apply Nat.eqb_eq in H2. congruence.
+  - injection H as -> ->. apply andb_true_iff; split; [apply IH; reflexivity | apply Nat.eqb_refl].
+Qed.
+Lemma cls_eqb_refl a : cls_eqb a a = true.
+Proof. apply cls_eqb_spec; reflexivity. Qed.
+
+Lemma outcome_eqb_spec a b : outcome_eqb a b = true <-> a = b.
+Proof. destruct a, b; simpl; split; intro H; try reflexivity; discriminate. Qed.
+(* ---------- the class order ---------- *)
+Lemma subclass_in c d : subclass c d = true <-> In d (supers c).
+Proof.
+  unfold subclass. rewrite existsb_exists. split.
+  - intros (x & Hx & E). apply cls_eqb_spec in E. subst. exact Hx.
+  - intros H. exists d. split; [exact H | apply cls_eqb_refl].
+Qed.
+Lemma supers_incl c : forall d, In d (supers c) -> incl (supers d) (supers c).
+Proof.
+  induction c as [| | | | | | | | | | | | |p IH k]; intros d H;
+    try (simpl in H; repeat (destruct H as [H|H]; [subst d; intros x Hx; simpl in *; tauto|]); contradiction).
+  cbn [supers] in *. destruct H as [H|H].
+  - subst d. cbn [supers]. apply incl_refl.
+  - apply incl_tl. apply IH. exact H.
+Qed.
+Lemma subclass_trans a b c : subclass a b = true -> subclass b c = true -> subclass a c = true.
+Proof. rewrite !subclass_in. intros H1 H2. exact (supers_incl a b H1 c H2). Qed.
+Lemma subclass_refl a : subclass a a = true.
+Proof. apply subclass_in. destruct a; simpl; auto. Qed.
+
+(* ---------- facts about the generated handler table (by computation) ---------- *)
+Lemma table_outcomes : forallb (fun h => match h_out h with Some _ => true | None => false end) generated_handlers = true.
+Proof. vm_compute. reflexivity. Qed.
+Lemma table_last_resort : last_resort = Some OErr.
+Proof. vm_compute. reflexivity. Qed.
+Lemma table_within_Exception : forallb (fun h => subclass (h_cls h) CException) generated_handlers = true.
+Proof. vm_compute. reflexivity. Qed.
+Lemma table_catch_all_last :
+  match rev generated_handlers with h :: _ => cls_eqb (h_cls h) CException | [] => false end = true.
+Proof. vm_compute. reflexivity. Qed.
+Lemma table_complete : run_passes_table = true /\ length generated_handlers = length exception_handlers.
+Proof. vm_compute. split; reflexivity. Qed.
+
+Lemma catch_all_in : exists h, In h generated_handlers /\ h_cls h = CException.
+Proof.
+  pose proof table_catch_all_last as H. destruct (rev generated_handlers) as [|h r] eqn:E; [discriminate|].
+  exists h. split; [|apply cls_eqb_spec; exact H].
+  apply in_rev. rewrite E. left; reflexivity.
+Qed.
+
+Lemma handlers_report p h : In h (handlers p) -> exists o, h_out h = Some o.
+Proof.
+  unfold handlers. intros Hin. apply in_app_or in Hin. destruct Hin as [Hin|Hin].
+  - apply in_map_iff in Hin. destruct Hin as (co & <- & _). eexists; reflexivity.
+  - pose proof table_outcomes as T. rewrite forallb_forall in T. specialize (T h Hin).
+    destruct (h_out h); [eexists; reflexivity | discriminate].
+Qed.
+
+(* ---------- choosing the exception to report ---------- *)
+Lemma lookup_none hs e : lookup hs e = None <-> claims hs e = false.
+Proof.
+  unfold lookup, claims. induction hs as [|h r IH]; simpl; [tauto|].
+  destruct (isinstance e (h_cls h)); simpl; [split; discriminate | exact IH].
+Qed.
+Lemma lookup_in hs e h : lookup hs e = Some h -> In h hs.
+Proof. unfold lookup. intros H. apply find_some in H. tauto. Qed.
+
+Lemma find_app {A} (f : A -> bool) a b :
+  find f (a ++ b) = match find f a with Some x => Some x | None => find f b end.
+Proof. induction a as [|x r IH]; simpl; [reflexivity|]. destruct (f x); [reflexivity | exact IH]. Qed.
+
+Lemma find_ext' {A} (f g : A -> bool) l : (forall x, f x = g x) -> find f l = find g l.
+Proof. intros H. induction l as [|x r IH]; simpl; [reflexivity|]. rewrite H, IH. reflexivity. Qed.
+
+Lemma choose_spec hs X :
+  X <> [] ->
+  choose hs X = match find (fun e => negb (claims hs e)) X with
+                | Some e => Some e
+                | None => Some (last X (Exc CFail None))
+                end.
+Proof.
+  intros HX. unfold choose.
+  destruct (exists_last HX) as (front & lst & ->).
+  rewrite rev_unit, removelast_last, find_app, last_last. simpl.
+  destruct (find _ front); [reflexivity|]. destruct (negb (claims hs lst)); reflexivity.
+Qed.
+
+(* the verdict when something unclaimed was caught / when everything caught is claimed *)
+Lemma decide_unclaimed hs X e :
+  find (fun e => negb (claims hs e)) X = Some e -> decide hs X = (last_resort, Some e).
+Proof.
+  intros F. unfold decide. assert (HX : X <> []) by (intro; subst; discriminate).
+  rewrite (choose_spec hs X HX), F. apply find_some in F. destruct F as [_ F].
+  apply negb_true_iff in F. apply lookup_none in F. rewrite F. reflexivity.
+Qed.
+Lemma decide_claimed hs X :
+  X <> [] -> find (fun e => negb (claims hs e)) X = None ->
+  exists h, lookup hs (last X (Exc CFail None)) = Some h /\ decide hs X = (h_out h, None).
+Proof.
+  intros HX F. unfold decide. rewrite (choose_spec hs X HX), F.
+  assert (C : claims hs (last X (Exc CFail None)) = true).
+  { pose proof (find_none _ _ F (last X (Exc CFail None))) as N.
+    destruct (exists_last HX) as (front & lst & ->). rewrite last_last in *.
+    assert (I : In lst (front ++ [lst])) by (apply in_or_app; right; left; reflexivity).
+    specialize (N I). now apply negb_false_iff in N. }
+  destruct (lookup hs (last X (Exc CFail None))) as [h|] eqn:L.
+  - exists h. split; reflexivity.
+  - apply lookup_none in L. congruence.
+Qed.
+
+Lemma collected_run_raised p : collected_run p false = raised p.
+Proof.
+  unfold collected_run, raised, forced_failure, collected. destruct (skipped p) eqn:S; simpl.
+  - unfold raised_by_user. rewrite S. reflexivity.
+  - reflexivity.
+Qed.
+
+(* the outcome a run reports, for every program whose inserted handlers are for Exception-derived classes *)
+Lemma verdict_outcome p f0 :
+  exists o, fst (verdict p f0) = Some o.
+Proof.
+  unfold verdict. destruct (skipped p); [eexists; reflexivity|].
+  unfold decide. destruct (choose (handlers p) (collected p f0)) as [e|]; [|eexists; reflexivity].
+  destruct (lookup (handlers p) e) as [h|] eqn:L; cbn [fst].
+  - apply lookup_in in L. exact (handlers_report p h L).
+  - rewrite table_last_resort. eexists; reflexivity.
+Qed.
+
+
+(* the bracket, at the level of the model's trace: the calls on the result are startTest, one
+   outcome, stopTest; no fuel problem; the cleanup stack is empty *)
+Theorem run_bracket p a0 :
+  exists s o d,
+    run p a0 = (s, snd (verdict p false), false)
+    /\ fst (verdict p false) = Some o
+    /\ calls (tr s) = [TStart; TOut o d; TStop]
+    /\ map shape (log s) = expected_log p
+    /\ stack s = [].
+Proof.
+  unfold run. destruct (run_from_spec p (init a0)) as (s & d & R & L & X & F & K & A & C).
+  destruct (verdict_outcome p false) as [o Ho]. exists s, o, d.
+  cbn [force init log tr] in *. rewrite Ho in C. repeat split; assumption.
+Qed.
+
